@@ -1,7 +1,13 @@
 #!/bin/bash
 # run every claimed check on /repo's current tree (quick by default); refreshes evidence/*.json
+# exits non-zero unless every check exits 0 — use `./run_all.sh && git commit ...`
 T=${1:-quick}
 cd /verif
+rc=0
 for p in $(python3 -c "import json;print(' '.join(c['property_id'] for c in json.load(open('MANIFEST.json'))['checks']))"); do
-  ./check $p --tier $T | tail -1
+  out=$(./check $p --tier $T); e=$?
+  echo "$out" | grep -v "^KNOWN-FINDING" | tail -1
+  [ $e -ne 0 ] && rc=1
 done
+[ $rc -ne 0 ] && echo "run_all: AT LEAST ONE CHECK DID NOT PASS"
+exit $rc
